@@ -126,7 +126,7 @@ func cmdRun(args []string) int {
 
 	var instrumented map[string][]byte
 	var iinfo *instrInfo
-	if !prop.NoInstr {
+	{
 		var err error
 		instrumented, iinfo, err = instrumentRepo()
 		if err != nil {
